@@ -277,6 +277,9 @@ PROPERTIES = {
     },
     "C18": {
         "runs": [{"suite": "conv"}],
+        "regen": {"groups": ["Conv", "Pointer", "Token", "PtrOps", "Buf", "PtrBuild"]},
+        "technique": REGEN_TECHNIQUE + " (regenerated: the text-level conversions and fallible constructors; the serde impls, Display, the Box casts and the integer -> Token macro stay hand-modelled)",
+        "level_suffix": regen_note("Pointer::as_str / to_owned / parse / to_json_value, AsRef<str> / AsRef<[u8]> / AsRef<Pointer> / Borrow<str> / Borrow<Pointer> / Deref / as_ptr, PointerBuf::new / root, TryFrom<String> / TryFrom<&str> / FromStr for PointerBuf and Token::from for &str / &String / String / &Token (Properties/C18_src.v: the views are the identity on the text, the constructors ARE the parser and keep the input text, a Token from text holds the escaped text)"),
         "level_text": "THIN THEOREMS, HEAVY TIE for the identity conversions. Proved in Coq: deserialize(serialize p) = p for valid p and deserialize refuses exactly the invalid texts (via C02); "
                       "a Token made from an integer is its decimal spelling, valid as it stands, decodes to itself, parses back as the same index, and distinct integers give distinct tokens (all integers, "
                       "the widths only restrict the domain). to_buf/to_owned/Cow/Box<->into_buf/to_json_value/Display/into_owned are the identity on the text in the model; the tie runs each of them "
